@@ -7,14 +7,22 @@ Require Import Nib.C16.Model Nib.C16.Spec.
 (** the world a history starts from: sudoers written at setup, authz grants saved at setup *)
 (** [w_raw]: the sudoers were imported from a genesis section, i.e. stored as given (any order,
     duplicates) until the first accepted EditSudoers rewrites the list in canonical form *)
-Record world := { w_root : addr; w_contracts : list addr; w_grants : list grant; w_raw : bool }.
+(** [w_owners]: the re-dispatching contracts of the case with their owners (contract, owner);
+    [w_setup_ok]: every MsgGrant of the setup was accepted (sent by the granter in a tx of its own, or,
+    when the granter is a contract, dispatched by it at its owner's request) — the model takes the
+    grants as saved, so a refused one is a disagreement *)
+Record world := { w_root : addr; w_contracts : list addr; w_grants : list grant; w_raw : bool;
+                  w_owners : list (addr * addr); w_setup_ok : bool }.
+
+(** the model the tree is compared with: wrapper guard in place (Gen/C16Oblig.v) *)
+Definition w_cfg (w : world) : cfg := mk_cfg (w_grants w) (w_owners w).
 
 Definition case : Type := world * list (list msg * obs).
 
 (** model vs implementation for one tx, from model state [s] *)
 Definition is_edit_sudoers (m : msg) : bool := match m with EditSudoers _ _ _ _ => true | _ => false end.
 
-Definition step_mismatch (raw : bool) (g : list grant) (s : st) (tx : list msg) (o : obs) : bool * st :=
+Definition step_mismatch (raw : bool) (g : cfg) (s : st) (tx : list msg) (o : obs) : bool * st :=
   let '(s', ok) := deliver g s tx in
   let bad :=
     negb (Bool.eqb ok (o_ok o)) ||
@@ -31,7 +39,7 @@ Definition step_mismatch (raw : bool) (g : list grant) (s : st) (tx : list msg) 
     ((w_meta s' =? w_meta s) && negb (o_same_meta o)) in
   (bad, s').
 
-Fixpoint trace_mismatch (raw : bool) (g : list grant) (s : st) (t : list (list msg * obs)) : bool :=
+Fixpoint trace_mismatch (raw : bool) (g : cfg) (s : st) (t : list (list msg * obs)) : bool :=
   match t with
   | [] => false
   | (tx, o) :: r => let '(bad, s') := step_mismatch raw g s tx o in bad || trace_mismatch raw g s' r
@@ -39,8 +47,9 @@ Fixpoint trace_mismatch (raw : bool) (g : list grant) (s : st) (t : list (list m
 
 Definition mismatch (c : case) : bool :=
   let w := fst c in
-  trace_mismatch (w_raw w) (w_grants w) (mk_st (w_root w) (normalize (w_contracts w))) (snd c).
+  negb (w_setup_ok w) ||
+  trace_mismatch (w_raw w) (w_cfg w) (mk_st (w_root w) (normalize (w_contracts w))) (snd c).
 
 Definition violates (c : case) : bool :=
   let w := fst c in
-  negb (Pb (w_root w) (normalize (w_contracts w)) (snd c)).
+  negb (Pb (w_cfg w) (w_root w) (normalize (w_contracts w)) (snd c)).
